@@ -158,7 +158,10 @@ fn eval(c: &Case) -> Option<Outcome> {
     let parsed: Vec<(String, NetworkFilter)> = c
         .rules
         .iter()
-        .filter_map(|l| NetworkFilter::parse(l.trim(), true, Default::default()).ok().map(|f| (l.trim().to_string(), f)))
+        .filter_map(|l| match adblock::lists::parse_filter(l, true, Default::default()) {
+            Ok(adblock::lists::ParsedFilter::Network(f)) => Some((l.trim().to_string(), f)),
+            _ => None,
+        })
         .collect();
     let bad_ids: Vec<u64> = parsed.iter().filter(|(_, f)| f.is_badfilter()).map(|(_, f)| f.get_id_without_badfilter()).collect();
     let mut matching = vec![];
